@@ -47,7 +47,7 @@ Proof.
   destruct pend as [|key fl|fl]; auto.
   destruct key as [x|].
   - destruct (has x); auto.
-  - destruct (unk || _); auto. destruct (_ && f_sd fl); auto.
+  - destruct (unk || _); auto.
 Qed.
 
 Lemma consume_pnone D has sel unk nested empty dp cv : consume D PNone has sel unk nested empty dp cv = None.
@@ -368,7 +368,7 @@ Proof.
   - apply exec_items_frame; [exact H1|apply S2; reflexivity|apply S4; reflexivity].
   - apply exec_items_frame; [exact H1|apply S2; reflexivity|apply S4; reflexivity].
   - reflexivity.
-  - simpl. destruct (cr && negb sv); [reflexivity|]. destruct (sd && d_subreq D && _); reflexivity.
+  - simpl. destruct (cr && negb sv); reflexivity.
   - simpl. destruct cr; reflexivity.
   - reflexivity.
   - (* parse_args with keywords *) apply A; reflexivity.
@@ -436,7 +436,7 @@ Proof.
   - apply exec_items_pending; exact E.
   - apply exec_items_pending; exact E.
   - exact E.
-  - destruct (cr && negb sv); [exact E|]. destruct (sd && d_subreq D && _); exact E.
+  - destruct (cr && negb sv); exact E.
   - destruct cr; exact E.
   - exact E.
 Qed.
@@ -478,7 +478,7 @@ Proof.
   - unfold exec_items, dd_after. rewrite F. destruct (apply_items _ _ _ _) as [c1|c1]; [|reflexivity].
     destruct (parse_common _ _ _ _ _) as [[o p] cv']. reflexivity.
   - unfold dd_checked. rewrite F.
-    destruct (cr && negb sv); [reflexivity|]. destruct (sd && d_subreq D && _); destruct sv; reflexivity.
+    destruct (cr && negb sv); [reflexivity|]. destruct sv; reflexivity.
   - unfold dd_checked. rewrite F. destruct cr; reflexivity.
 Qed.
 
@@ -519,7 +519,7 @@ Proof.
     destruct (parse_common _ _ _ _ _) as [[o p] cv']. reflexivity.
   - unfold exec_items. destruct (apply_items _ _ _ _) as [c1|c1]; [|reflexivity].
     destruct (parse_common _ _ _ _ _) as [[o p] cv']. reflexivity.
-  - destruct (cr && negb sv); [reflexivity|]. destruct (sd && d_subreq D && _); reflexivity.
+  - destruct (cr && negb sv); reflexivity.
   - destruct cr; reflexivity.
 Qed.
 
